@@ -2,11 +2,11 @@
 EXTENDS ArgMachine
 
 AuthS == SchemaF(<< <<"user_name", StringF>> >>)
-DbS == SchemaF(<< <<"host", StringF>>, <<"pool_size", With(IntF, [default |-> IntV(5), hasmin |-> TRUE, min |-> 1])>>,
+DbS == SchemaF(<< <<"host", StringF>>, <<"pool_size", With(IntF, [default |-> IntV(5), hasmin |-> TRUE, min |-> 1]) @@ [help |-> "documented"]>>,
                   <<"ssl", With(BoolF, [default |-> BoolV(TRUE)])>>, <<"auth", AuthS>> >>)
 SchemaG == SchemaF(<<
-    <<"host", With(StringF, [default |-> StrV(<<"h", "0">>)])>>,
-    <<"port", With(IntF, [hasmin |-> TRUE, min |-> 1, hasmax |-> TRUE, max |-> 9999, default |-> IntV(80)])>>,
+    <<"host", With(StringF, [default |-> StrV(<<"h", "0">>)]) @@ [help |-> "documented"]>>,
+    <<"port", With(IntF, [hasmin |-> TRUE, min |-> 1, hasmax |-> TRUE, max |-> 9999, default |-> IntV(80)]) @@ [help |-> "documented"]>>,
     <<"rate", With(FloatF, [default |-> FloatH(3)])>>,
     <<"debug", With(BoolF, [default |-> BoolV(FALSE)])>>,
     <<"log_level", With(StringF, [tcase |-> "lower", choices |-> << <<"i", "n", "f", "o">>, <<"d", "e", "b", "u", "g">> >>, default |-> StrV(<<"i", "n", "f", "o">>)])>>,
